@@ -621,6 +621,11 @@ class simulation_model():
 
         mymemo = self.memo[equation]
 
+        # stay on the decimal time grid: chains of t-self.dt drift in floating point (0.4-0.1-0.1-0.1-0.1 = 2.8e-17, not 0),
+        # which makes "t <= self.starttime" fail and adds an integration step
+        if isinstance(arg, float):
+            arg = round(arg, 10)
+
         if arg in mymemo.keys():
             return mymemo[arg]
         else:
